@@ -24,14 +24,17 @@ RECURSIVE RunFrom(_, _, _, _, _)
 \* values of seq[i..] generated one after the other from the stream, under configuration c
 RunFrom(c, i, tape, p, acc) ==
   IF i > Len(seq) THEN acc
-  ELSE LET g == Gen(seq[i], tape, p)
+  ELSE LET g == Gen(SchemaOf(seq[i]), tape, p)
            v == IF g.ok THEN g.v ELSE [k |-> "raised", exc |-> g.exc]
        IN  RunFrom(c, i + 1, tape, g.p,
                    Append(acc, [v |-> v, env |-> IF ReadsEnv(seq[i]) THEN c ELSE 0]))
 
 Init == /\ seed \in Seeds
-        /\ seq \in {<<a>> : a \in SeedSchemas} \cup
-                   (IF MaxSeq >= 2 THEN {<<a, b>> : a \in SeedSchemas, b \in {SInt05, SStrAlpha, [BareStr EXCEPT !.pattern = Some(RxNeg)]}} ELSE {})
+        /\ seq \in {<<a>> : a \in SeedSchemas \cup SeedSums} \cup
+                   (IF MaxSeq >= 2
+                    THEN {<<a, b>> : a \in SeedSchemas \cup SeedSums,
+                                     b \in {SInt05, SStrAlpha, [BareStr EXCEPT !.pattern = Some(RxNeg)], SOpen33}}
+                    ELSE {})
         /\ out = <<>>
 
 Run == /\ out = <<>>
